@@ -536,9 +536,34 @@ fn worker(n: usize, total: usize, wi: usize, w: usize, seed: u64) -> WorkerOut {
     }
 }
 
-/// Bounded-exhaustive part: one election, one request, `hbs` heartbeat rounds of the elected member, all
-/// outstanding at once on a 3-member cluster; the simulator enumerates every schedule.
-fn exhaustive_small(rep: &mut Reporter, hbs: usize) -> bool {
+/// Parse an exhaustive scenario: tokens `e<m>` (election timer of member m), `r<m>` (request to m), `h<m>`
+/// (heartbeat timer of m) form un-quiesced bursts, `|` is a phase barrier. Example: "e0r0h0".
+fn parse_scenario(s: &str) -> Vec<Vec<Act>> {
+    let mut bursts = vec![vec![]];
+    let cs: Vec<char> = s.chars().collect();
+    let mut i = 0;
+    while i < cs.len() {
+        match cs[i] {
+            '|' => bursts.push(vec![]),
+            c @ ('e' | 'r' | 'h') => {
+                i += 1;
+                let m = cs[i].to_digit(10).expect("member digit");
+                bursts.last_mut().unwrap().push(match c {
+                    'e' => Act::El(m),
+                    'r' => Act::Req(m),
+                    _ => Act::Hb(m),
+                });
+            }
+            _ => panic!("bad scenario {s}"),
+        }
+        i += 1;
+    }
+    bursts
+}
+
+/// Bounded-exhaustive part on a 3-member cluster: the simulator enumerates every schedule of `scenario`.
+fn exhaustive_small(rep: &mut Reporter, scenario: &str) -> bool {
+    let bursts = parse_scenario(scenario);
     let sim = build(3);
     let ports = sim.ports();
     let agg: Mutex<(Partial, BTreeMap<&'static str, HashSet<u64>>)> =
@@ -551,11 +576,9 @@ fn exhaustive_small(rep: &mut Reporter, hbs: usize) -> bool {
                 obs: &obs,
                 next_msg: 1,
             };
-            let mut acts = vec![Act::El(0), Act::Req(0)];
-            for _ in 0..hbs {
-                acts.push(Act::Hb(0));
+            for b in &bursts {
+                d.burst(b).await;
             }
-            d.burst(&acts).await;
         }
         let o = obs.into_inner().unwrap_or_else(|e| e.into_inner());
         let mut g = agg.lock().unwrap();
@@ -566,12 +589,16 @@ fn exhaustive_small(rep: &mut Reporter, hbs: usize) -> bool {
             part.violation(
                 &format!("C40|raft|{kind}|exhaustive"),
                 detail,
-                json!({"engine":"hv_sim_b","test":"c40_raft","protocol":"raft","n":3,"family":"exhaustive_small",
-                       "heartbeats":hbs,"observed_committed":o.committed}),
+                json!({"engine":"hv_sim_b","test":"c40_raft","protocol":"raft","n":3,"family":"exhaustive",
+                       "scenario":scenario,"observed_committed":o.committed}),
             );
         }
-        if o.committed.iter().any(|c| !c.is_empty()) {
+        let committers = o.committed.iter().filter(|c| !c.is_empty()).count();
+        if committers >= 1 {
             part.count("exhaustive_executions_with_commit");
+        }
+        if committers >= 2 {
+            part.count("exhaustive_executions_two_members_committed");
         }
         sets.entry("exhaustive_distinct_outcomes")
             .or_default()
@@ -583,11 +610,11 @@ fn exhaustive_small(rep: &mut Reporter, hbs: usize) -> bool {
         rep.require(false, &format!("harness error in exhaustive part: {e}"));
     }
     for (k, s) in sets {
-        rep.extra(k, json!(s.len()));
+        rep.extra(&format!("{k} [{scenario}]"), json!(s.len()));
     }
     match res {
         Ok(nexec) => {
-            rep.extra("exhaustive_executions_reported_by_simulator", json!(nexec));
+            rep.extra(&format!("exhaustive_executions [{scenario}]"), json!(nexec));
             true
         }
         Err(msg) => {
@@ -596,7 +623,7 @@ fn exhaustive_small(rep: &mut Reporter, hbs: usize) -> bool {
                     "C40|raft|guard-panic|exhaustive",
                     &format!("the implementation's own safety guard fired in the exhaustive scenario: {msg}"),
                     json!({"engine":"hv_sim_b","test":"c40_raft","protocol":"raft","n":3,
-                           "family":"exhaustive_small","heartbeats":hbs}),
+                           "family":"exhaustive","scenario":scenario}),
                 );
             } else {
                 rep.require(false, &format!("exhaustive exploration stopped: {msg}"));
@@ -609,9 +636,9 @@ fn exhaustive_small(rep: &mut Reporter, hbs: usize) -> bool {
 fn replay(case: &Value, rep: &mut Reporter) {
     let n = case["n"].as_u64().unwrap_or(3) as usize;
     let fam_name = case["family"].as_str().unwrap_or("targeted");
-    if fam_name == "exhaustive_small" {
-        let hbs = case["heartbeats"].as_u64().unwrap_or(2) as usize;
-        exhaustive_small(rep, hbs);
+    if fam_name == "exhaustive" {
+        let scenario = case["scenario"].as_str().unwrap_or(EXHAUSTIVE_QUICK[0]).to_string();
+        exhaustive_small(rep, &scenario);
         return;
     }
     let family = FAMILIES.iter().position(|f| *f == fam_name).unwrap_or(0);
@@ -646,6 +673,7 @@ to be rewrite-free. A case is non-trivial when at least two members committed an
 different members won an election in it; distinct = distinct (committed histories, leader claims).";
 
 pub fn raft() {
+    println!();
     let args = Args::from_env();
     if args.prop == "NONE" {
         return;
@@ -692,11 +720,13 @@ pub fn raft() {
     rep.extra("throughput", json!(rates));
     rep.extra("scheduler_decision_bytes_per_schedule", json!(super::util::SCHED_BYTES));
 
-    let exhaustive_done = if args.tier == Tier::Miri {
-        false
-    } else {
-        exhaustive_small(&mut rep, EXHAUSTIVE_HEARTBEATS)
-    };
+    let mut exhaustive_done = args.tier != Tier::Miri;
+    if args.tier != Tier::Miri {
+        let scenarios: &[&str] = if args.tier == Tier::Thorough { &EXHAUSTIVE_THOROUGH } else { &EXHAUSTIVE_QUICK };
+        for sc in scenarios {
+            exhaustive_done &= exhaustive_small(&mut rep, sc);
+        }
+    }
 
     let sched = rep.counter("schedules").max(1);
     if args.tier != Tier::Miri {
@@ -722,21 +752,25 @@ pub fn raft() {
     rep.finish(RULE, exhaustive_done);
 }
 
-/// Heartbeat rounds in the bounded-exhaustive scenario (sized so that the space stays < 10^6 executions).
-pub const EXHAUSTIVE_HEARTBEATS: usize = 2;
+/// Bounded-exhaustive scenarios on 3 members, sized by probe so that each stays well below 10^6 executions:
+/// "e0|r0h0|h0" = member 0's election timer; barrier; a request to it racing one heartbeat round; barrier; one
+/// more heartbeat round (51 480 schedules, two members commit in 40 320 of them); "e0r0h0" = election timer,
+/// request and one heartbeat round all outstanding at once (40 976 schedules). Larger variants ("e0r0h0|h0",
+/// "e0|r0h0h0", "e0r0h0h0") exceed 3*10^5 .. 6*10^5 schedules without finishing in 10 minutes.
+pub const EXHAUSTIVE_QUICK: [&str; 1] = ["e0|r0h0|h0"];
+pub const EXHAUSTIVE_THOROUGH: [&str; 2] = ["e0|r0h0|h0", "e0r0h0"];
 
 /// Probe used while sizing the exhaustive scenario (not registered).
 pub fn probe_exhaustive() {
-    let hbs: usize = std::env::var("VERIF_PROBE_HBS")
-        .ok()
-        .and_then(|s| s.parse().ok())
-        .unwrap_or(1);
+    let sc = std::env::var("VERIF_PROBE_SCENARIO").unwrap_or_else(|_| "e0r0h0".to_string());
     let mut rep = Reporter::new("C40", 1);
     let t0 = std::time::Instant::now();
-    let ok = exhaustive_small(&mut rep, hbs);
+    let ok = exhaustive_small(&mut rep, &sc);
     println!(
-        "probe_exhaustive hbs={hbs} ok={ok} executions={} in {:?}",
+        "probe_exhaustive scenario={sc} ok={ok} executions={} with_commit={} two_committers={} in {:?}",
         rep.counter("exhaustive_executions"),
+        rep.counter("exhaustive_executions_with_commit"),
+        rep.counter("exhaustive_executions_two_members_committed"),
         t0.elapsed()
     );
     rep.finish("probe", ok);
